@@ -936,6 +936,9 @@ def build_case(node, modname, layers):
         if 'ilevel' in t:
             inst.level = t['ilevel']
         suite.addTest(inst)
+        if t.get('twice'):
+            # a second test object of the same class and method (hand-made parametrisation): the two compare equal
+            suite.addTest(cls(t['n']))
     if node.get('class_error'):
         def setUpClass(klass, _exc=node['class_error'], _nm=node['name']):
             emit('class_fixture_error', cls=_nm)
